@@ -137,12 +137,11 @@ fn run(c: &ControlFlowGraph, init: &BTreeMap<String, Bv>, mem: &BTreeMap<u64, u8
     })
 }
 
-/// The instruction sequences that can be executed from the entry, guards ignored: every sequence that ends
-/// in a block without successors ("$") and every prefix of `max_ins` instructions ("..."). None when the
-/// graph has no usable entry or the enumeration is too large.
-fn path_language(c: &ControlFlowGraph, max_ins: usize) -> Option<BTreeSet<String>> {
-    let entry = c.entry()?;
-    c.block(entry).ok()?;
+/// The instruction sequences that can be executed from `entry`, guards ignored, of an abstract graph given by
+/// `instrs` (the instruction strings of a node; None = no such node) and `succ`: every sequence that ends in a node
+/// without successors ("$") and every prefix of `max_ins` instructions ("..."). None when the enumeration is too large.
+fn language(entry: usize, instrs: &dyn Fn(usize) -> Option<Vec<String>>, succ: &dyn Fn(usize) -> Vec<usize>, max_ins: usize) -> Option<BTreeSet<String>> {
+    instrs(entry)?;
     let mut out = BTreeSet::new();
     let mut work: Vec<(usize, Vec<String>, BTreeSet<usize>)> = vec![(entry, Vec::new(), [entry].into_iter().collect())];
     let mut budget = 30_000usize;
@@ -151,10 +150,10 @@ fn path_language(c: &ControlFlowGraph, max_ins: usize) -> Option<BTreeSet<String
             return None;
         }
         budget -= 1;
-        let block = c.block(b).ok()?;
+        let ins = instrs(b)?;
         let mut truncated = false;
-        for ins in block.instructions() {
-            seq.push(format!("{:x?} {}", ins.address(), ins.operation()));
+        for i in &ins {
+            seq.push(i.clone());
             if seq.len() >= max_ins {
                 truncated = true;
                 break;
@@ -164,27 +163,66 @@ fn path_language(c: &ControlFlowGraph, max_ins: usize) -> Option<BTreeSet<String
             out.insert(format!("{} ...", seq.join(" ; ")));
             continue;
         }
-        if !block.instructions().is_empty() {
+        if !ins.is_empty() {
             seen = BTreeSet::new();
         }
-        let succ: Vec<usize> = c.edges().iter().filter(|e| e.head() == b).map(|e| e.tail()).collect();
-        if succ.is_empty() {
+        let ss = succ(b);
+        if ss.is_empty() {
             out.insert(format!("{} $", seq.join(" ; ")));
             continue;
         }
-        for t in succ {
-            // going round a cycle of empty blocks adds no instruction: do not revisit
+        for t in ss {
+            // going round a cycle of empty nodes adds no instruction: do not revisit
             let mut seen2 = seen.clone();
-            if !seen2.insert(t) && block.instructions().is_empty() {
+            if !seen2.insert(t) && ins.is_empty() {
                 continue;
             }
-            if c.block(t).is_err() {
+            if instrs(t).is_none() {
                 continue;
             }
             work.push((t, seq.clone(), seen2));
         }
     }
     Some(out)
+}
+
+fn ins_string(ins: &il::Instruction) -> String {
+    format!("{:x?} {}", ins.address(), ins.operation())
+}
+
+/// `language` of a control-flow graph from its entry.
+fn path_language(c: &ControlFlowGraph, max_ins: usize) -> Option<BTreeSet<String>> {
+    let entry = c.entry()?;
+    language(
+        entry,
+        &|b| c.block(b).ok().map(|blk| blk.instructions().iter().map(ins_string).collect()),
+        &|b| c.edges().iter().filter(|e| e.head() == b).map(|e| e.tail()).collect(),
+        max_ins,
+    )
+}
+
+/// The language of "run g0, then g1, then ..." written down without building a graph with the code under test:
+/// nodes are (graph number, block index); the exit of each graph gets one more successor, the entry of the next.
+fn chain_language(gs: &[ControlFlowGraph], max_ins: usize) -> Option<BTreeSet<String>> {
+    const STRIDE: usize = 1 << 20;
+    for g in gs {
+        g.entry()?;
+        g.exit()?;
+    }
+    let instrs = |n: usize| -> Option<Vec<String>> {
+        let (gi, b) = (n / STRIDE, n % STRIDE);
+        gs.get(gi)?.block(b).ok().map(|blk| blk.instructions().iter().map(ins_string).collect())
+    };
+    let succ = |n: usize| -> Vec<usize> {
+        let (gi, b) = (n / STRIDE, n % STRIDE);
+        let g = &gs[gi];
+        let mut v: Vec<usize> = g.edges().iter().filter(|e| e.head() == b).map(|e| gi * STRIDE + e.tail()).collect();
+        if g.exit() == Some(b) && gi + 1 < gs.len() {
+            v.push((gi + 1) * STRIDE + gs[gi + 1].entry().unwrap());
+        }
+        v
+    };
+    language(gs[0].entry()?, &instrs, &succ, max_ins)
 }
 
 fn init_state(rng: &mut Rng, pool: &[il::Scalar]) -> (BTreeMap<String, Bv>, BTreeMap<u64, u8>) {
@@ -511,6 +549,85 @@ impl C15 {
         ctx.class(&format!("append/a{}b{}", a.blocks().len().min(5), b.blocks().len().min(5)));
     }
 
+    /// Chains of graphs whose exits may have successors of their own (a do-while whose tail is the exit, a one-block
+    /// conditional self-loop): repeated append, and BlockTranslationResult::blockify over the same graphs, must run
+    /// the first graph, then the second, ... - judged on the executable instruction sequences, guards ignored,
+    /// against a language written down without the code under test.
+    fn chain_meaning(&self, ctx: &mut Ctx, rng: &mut Rng) {
+        let n = 2 + rng.usize(3);
+        let mut gs: Vec<ControlFlowGraph> = Vec::new();
+        for i in 0..n {
+            let o = GenOpts { max_blocks: 3, max_instrs: 2, all_reachable: true, intrinsics: false, indirect_branches: false, addr_base: 0x1000 + 0x100 * i as u64, ..GenOpts::default() };
+            let mut c = ilgen::generate(rng, &o).f.control_flow_graph().clone();
+            // the exit is sometimes a block that has successors (the tail of a loop), sometimes the entry itself
+            if rng.chance(1, 3) {
+                let with_succ: Vec<usize> = c.blocks().iter().map(|b| b.index()).filter(|b| c.successor_indices(*b).map(|s| !s.is_empty()).unwrap_or(false)).collect();
+                if !with_succ.is_empty() {
+                    let _ = c.set_exit(with_succ[rng.usize(with_succ.len())]);
+                }
+            }
+            gs.push(c);
+        }
+        let describe = |gs: &[ControlFlowGraph]| json!(gs.iter().map(cfg_json).collect::<Vec<_>>());
+        let expected = match chain_language(&gs, 7) {
+            Some(l) => l,
+            None => {
+                ctx.count("chain_language_too_large(skipped)");
+                return;
+            }
+        };
+        let exits_with_successors = gs.iter().any(|g| g.exit().and_then(|e| g.successor_indices(e).ok()).map(|s| !s.is_empty()).unwrap_or(false));
+        // (a) repeated append
+        let mut acc = gs[0].clone();
+        let mut ok = true;
+        for g in &gs[1..] {
+            match guard(|| acc.append(g)) {
+                Ok(Ok(())) => {}
+                Ok(Err(e)) => {
+                    ctx.violation("append:error:chain", json!({"graphs": describe(&gs), "error": format!("{:?}", e)}));
+                    ok = false;
+                    break;
+                }
+                Err(p) => {
+                    ctx.panic_violation("append:chain", &p, describe(&gs));
+                    ok = false;
+                    break;
+                }
+            }
+        }
+        ctx.eval();
+        if ok {
+            self.check_inv(ctx, &acc, "append", &vec!["g0.append(g1)...".to_string()]);
+            if let Some(got) = path_language(&acc, 7) {
+                if got != expected {
+                    let only_expected: Vec<&String> = expected.difference(&got).take(3).collect();
+                    let only_got: Vec<&String> = got.difference(&expected).take(3).collect();
+                    ctx.violation("append:changes_executable_sequences:chain", json!({"graphs": describe(&gs), "result": cfg_json(&acc), "only_expected": only_expected, "only_got": only_got}));
+                    return;
+                }
+            }
+        }
+        // (b) blockify of the same graphs as the instructions of one lifted block
+        let btr = falcon::translator::BlockTranslationResult::new(gs.iter().enumerate().map(|(i, g)| (0x1000 + 0x100 * i as u64, g.clone())).collect(), 0x1000, 4 * n, Vec::new());
+        ctx.eval();
+        match guard(|| btr.blockify()) {
+            Err(p) => ctx.panic_violation("blockify:chain", &p, describe(&gs)),
+            Ok(Err(e)) => ctx.violation("blockify:error:chain", json!({"graphs": describe(&gs), "error": format!("{:?}", e)})),
+            Ok(Ok(c)) => {
+                self.check_inv(ctx, &c, "blockify", &vec!["blockify of a chain".to_string()]);
+                if let Some(got) = path_language(&c, 7) {
+                    if got != expected {
+                        let only_expected: Vec<&String> = expected.difference(&got).take(3).collect();
+                        let only_got: Vec<&String> = got.difference(&expected).take(3).collect();
+                        ctx.violation("blockify:changes_executable_sequences:chain", json!({"graphs": describe(&gs), "result": cfg_json(&c), "only_expected": only_expected, "only_got": only_got}));
+                        return;
+                    }
+                }
+            }
+        }
+        ctx.class(&format!("chain/n{}/{}", n, if exits_with_successors { "exit_with_successors" } else { "clean_exits" }));
+    }
+
     fn blockify(&self, ctx: &mut Ctx, rng: &mut Rng) {
         // register-only amd64 instructions, then a terminator or nothing
         let pool: [&[u8]; 10] = [
@@ -578,7 +695,8 @@ impl Check for C15 {
         match rng.below(10) {
             0..=3 => self.edit_history(ctx, rng),
             4..=6 => self.merge_meaning(ctx, rng),
-            7 | 8 => self.append_meaning(ctx, rng),
+            7 => self.append_meaning(ctx, rng),
+            8 => self.chain_meaning(ctx, rng),
             _ => self.blockify(ctx, rng),
         }
     }
